@@ -209,32 +209,33 @@ import numpy as np
 from TidalPy.RadialSolver import radial_solver
 G = 6.6743e-11
 rows = []
-worst = 0.0
+worst = {"incompressible": 0.0, "compressible": 0.0}
 for R in args["radii"]:
     for l in args["degrees"]:
         for method in args["methods"]:
-            for kamata in (True, False):
-                for static in (True, False):
-                    N = 120
-                    rho = 4000.0; mu = 3.0e9 + 4.0e8j
-                    r = np.linspace(R / N, R, N)
-                    g = 4 / 3 * np.pi * G * rho * r
-                    dens = np.full(N, rho); K = np.full(N, 1e3 * abs(mu)); sh = np.full(N, mu, dtype=np.complex128)
-                    try:
-                        s = radial_solver(r, dens, g, K, sh, 1.0e-6, rho, ("solid",), (static,), (False,), (R,), degree_l=l, use_kamata=kamata,
-                                          integration_method=method, integration_rtol=1e-10, integration_atol=1e-12)
-                    except Exception as ex:
-                        rows.append([R, l, method, kamata, static, "raised " + type(ex).__name__]); continue
-                    if not s.success:
-                        rows.append([R, l, method, kamata, static, "no success"]); continue
-                    gR = g[-1]
-                    ml = (2 * l * l + 4 * l + 3) * mu / (l * rho * gR * R)
-                    kc = 1.5 / (l - 1) / (1 + ml); hc = (2 * l + 1) * kc / 3; lc = kc / l
-                    k, h, sh_ = s.love[0]
-                    err = max(abs(k - kc), abs(h - hc), abs(sh_ - lc))
-                    worst = max(worst, err)
-                    rows.append([R, l, method, kamata, static, float(err)])
-result = dict(worst=worst, n=len(rows), rows=rows[:12], failures=[x for x in rows if isinstance(x[5], str)][:6])
+            # (incompressible flag, Kamata family, static, K/|mu|): the driver offers the incompressible assumption only for dynamic layers with the Kamata family
+            for incomp, kamata, static, Kfac in ((True, True, False, 1e3), (False, True, True, 1e6), (False, True, False, 1e6), (False, False, True, 1e6), (False, False, False, 1e6)):
+                N = 120
+                rho = 4000.0; mu = 3.0e9 + 4.0e8j
+                r = np.linspace(R / N, R, N)
+                g = 4 / 3 * np.pi * G * rho * r
+                dens = np.full(N, rho); K = np.full(N, Kfac * abs(mu)); sh = np.full(N, mu, dtype=np.complex128)
+                try:
+                    s = radial_solver(r, dens, g, K, sh, 1.0e-6, rho, ("solid",), (static,), (incomp,), (R,), degree_l=l, use_kamata=kamata,
+                                      integration_method=method, integration_rtol=1e-10, integration_atol=1e-12)
+                except Exception as ex:
+                    rows.append([R, l, method, incomp, kamata, static, "raised " + type(ex).__name__]); continue
+                if not s.success:
+                    rows.append([R, l, method, incomp, kamata, static, "no success"]); continue
+                gR = g[-1]
+                ml = (2 * l * l + 4 * l + 3) * mu / (l * rho * gR * R)
+                kc = 1.5 / (l - 1) / (1 + ml); hc = (2 * l + 1) * kc / 3; lc = kc / l
+                k, h, sh_ = s.love[0]
+                err = float(max(abs(k - kc), abs(h - hc), abs(sh_ - lc)))
+                key = "incompressible" if incomp else "compressible"
+                worst[key] = max(worst[key], err)
+                rows.append([R, l, method, incomp, kamata, static, err])
+result = dict(worst=worst, n=len(rows), rows=rows[:10], largest=sorted([x for x in rows if not isinstance(x[6], str)], key=lambda x: -x[6])[:4], failures=[x for x in rows if isinstance(x[6], str)][:6])
 '''
 
 
@@ -248,8 +249,18 @@ def bounded_native(b, tier):
     cfg = dict(radii=[1e5, 1e7] if tier == "quick" else [1e5, 1e6, 1e7, 1e8], degrees=[2, 3] if tier == "quick" else [2, 3, 5, 10],
                methods=["RK45"] if tier == "quick" else ["RK23", "RK45", "DOP853"])
     out = native.run(dict(code=_NATIVE, args=cfg), timeout=1500)
-    b.bounded.append(dict(name="compiled radial_solver on homogeneous spheres vs the Kelvin closed form (K/mu = 1e3, rtol 1e-10), error on the O(1) scale",
-                          bound=f"R in {cfg['radii']}, l in {cfg['degrees']}, integrators {cfg['methods']}, both starting families, static and dynamic", result=out.get("result", out), counted_as_proved=False))
+    res = out.get("result", out)
+    b.bounded.append(dict(name="compiled radial_solver on homogeneous spheres vs the Kelvin closed form (rtol 1e-10, frequency 1e-6 rad/s), error on the O(1) scale; incompressible = dynamic-incompressible "
+                               "Kamata layers, compressible = K = 1e6 |mu| (finite-K effect grows with the body's self-compression rho g R / K)",
+                          bound=f"R in {cfg['radii']}, l in {cfg['degrees']}, integrators {cfg['methods']}, both starting families, static and dynamic", result=res, counted_as_proved=False))
+    # a gross disagreement of the running solver with the closed form is a genuine failing input (the stand-in's refutations count, its passes do not)
+    if isinstance(res, dict) and isinstance(res.get("worst"), dict):
+        for kind, tol in (("incompressible", 1e-3), ("compressible", 2e-2)):
+            if res["worst"].get(kind, 0.0) > tol:
+                ground(b, f"{SM.FSOL}::radial_solver::bounded:kelvin_native[{kind}]", f"{SM.FSOL}::radial_solver", f"BOUNDED native run: Love numbers of a homogeneous sphere agree with the Kelvin closed form ({kind} setting, O(1)-scale error below {tol})",
+                       False, detail=str(res.get("largest"))[:300], refuted_model=dict(largest=str(res.get("largest"))[:300]), bounded=True, native_confirmed=True)
+        if res.get("failures"):
+            b.notes.append(dict(native_grid_failures=res["failures"]))
 
 
 def build(tier="quick", seed=0):
@@ -267,8 +278,11 @@ def build(tier="quick", seed=0):
         if cs is not None:
             end_to_end(b, Y, free, cs)
     bounded_native(b, tier)
+    b.replayer("*::bounded:kelvin_native*", lambda ob, res: dict(replayed=True, confirmed=True, detail="found by running the compiled solver (see model)"))
     b.explanation = "Kelvin lemma on the ODE operator extracted from the real code, operator limits, real find_love_cf, and an end-to-end symbolic execution of the real solver with the verified Kelvin basis as CyRK contract"
     b.assume("CyRK integrates the linear ODE it is given within rtol/atol (external contract): 'for every supported integrator, within the requested tolerance' is assumed through it, not proved")
+    b.assume("the driver rejects the static + incompressible solid combination (NotImplementedError): the runnable settings are dynamic-incompressible (Kamata) and compressible ones; the exact "
+             "static-incompressible case proved here is their common limit (operator identities ::static_limit, ::incompressible_limit)")
     b.assume("finite-K ('effectively incompressible') and finite-frequency ('quasi-static') solves converge to the exactly proved static-incompressible case: supported by the proved operator limits, the rate is not quantified")
     b.assume("the solver's solution is THE regular solution meeting the surface triple: uniqueness from C04 (starting vectors span the regular solutions) and ZGESV info = 0 (non-singular surface matrix)")
     b.assume("linear interpolation of rho, g, mu between nodes is exact for a uniform body (constants and g proportional to r); complex mu as a formal indeterminate (no conjugation in these functions); doubles as reals")
